@@ -23,7 +23,7 @@ TRUSTED_BASE = [
     "hand-written model/CodecLoop.v of writer/compression.rs (the three grow-the-buffer encode loops, snappy framing with the reader-side CRC check), tied to the crate by hook H3 (hooks/H3.diff: overridable start length of the output buffer, per-call trace): every recorded trace is replayed through the extracted model loop, which must make the same calls (input length, window length), take the same decision and hand on the same bytes",
     "the compression libraries (flate2/miniz_oxide, bzip2, snap, xz2, zstd) are ABSTRACT: the loop theorems hold for every library meeting CodecLoop.stream_contract_valid (resp. stream_contract); each clause is validated on the real traces of every run (coverage.notes.codec_loops), not proved of the libraries",
     "hand-written model/DecodeLoop.v of reader/decompression.rs (BufReader(capacity) over an abstract streaming decoder over Take(block size); std's BufReader fill/bypass discipline; the end-of-block check: 1-byte read, Take limit; snappy block), tied to the crate by hook H4 (hooks/H4.diff: overridable BufReader capacity, trace of every decoder read and of the end-of-block check): every recorded check is replayed through the extracted model (DecodeLoop.replay_end: same decoder request, same decision, same Take limit afterwards). ABSTRACTION: values are decoded by De.de in slice mode on the decompressed bytes still to come and the BufReader state is advanced by the bytes taken (DecodeLoop.v header; C11 = de through any chunking equals de on the slice); the streaming decoders are ABSTRACT: the theorems hold for every decoder meeting DecodeLoop.stream_decoder_contract, whose clauses are validated on every run on the reads the crate made and on direct probes of the decoder types the crate uses (coverage.notes.decode_side), not proved of the libraries; the contract is inhabited (C05_decoder_contract_inhabited: the small lagging codec of DecodeLoop.v meets it for every input, cut and extension)",
-    "hand-written model/ContainerCodec.v (ccr_file: the reader of WHOLE files with compressed blocks -- cr_open, then per block count / size varints, negative checks, block_open / block_run of DecodeLoop.v or snappy_run, end-of-block check, sync marker, the chunk plan threaded through the blocks), tied to the crate by running the extracted function on every compressed file the run reads through `crt` (lib/containercodec.py, OCaml command `ccr`): same bytes, same kind of source (slice / the same chunk plan), the value decoder cc_vdec for the schema text of the header (Python json -> AST -> Parse.parse_schema), the codec named in the header, and a REPLAY streaming decoder (model/ContainerReplay.v) that answers from the reads hook H4 recorded for each block (bytes produced or Err, compressed bytes consumed = difference of the Take limits; a block finds its reads by the bytes its Take holds and the chunk-plan state at its first byte); compared: schema text, user metadata, the values before the first error (borrows erased), the way the run ends (end of stream; class of the first error: negative count/size, block cannot be opened, decoder Err / decompressed data left / Take not exhausted in the end check, sync mismatch, other = value error | unreadable count/size | short marker), under both extreme read policies (every refill a fill_buf; every refill of >= capacity outstanding bytes a bypassing read). TRUSTED in this tie: hook H4 records lengths only -- the BYTES of each read are the block's data decoded by the compression library on its own (harness `decode`, cross-checked against Python's zlib / bz2 / lzma on complete streams) sliced by the produced counts; snap::raw and CRC32 enter as tables (harness `decode snappy`, zlib.crc32); the runner's own walk of the file layout (block offsets for the replay keys). NOT tied by it: the request sizes on the model's real path (policy parameter; the end check's request is tied by `decend`), message texts, the per-call pretend_eof logic after the first error, runs too long for the list-based model (skipped and counted in coverage.notes), null-codec files (Container.cr_run). One tolerance (coverage.notes ... read_ahead): a decoder Err that reaches the crate's deserializer inside a value whose bytes were all out (read_slice calls fill_buf first, also for 0 bytes) fails that value in the crate; the model delivers it and meets the same Err afterwards",
+    "hand-written model/ContainerCodec.v (ccr_file: the reader of WHOLE files with compressed blocks -- cr_open, then per block count / size varints, negative checks, block_open / block_run of DecodeLoop.v or snappy_run, end-of-block check, sync marker, the chunk plan threaded through the blocks), tied to the crate by running the extracted function on every compressed file the run reads through `crt` (lib/containercodec.py, OCaml command `ccr`): same bytes, same kind of source (slice / the same chunk plan), the value decoder cc_vdec for the schema text of the header (the text itself, read by the model: JsonRead.json_of_text -> Parse.parse_schema), the codec named in the header, and a REPLAY streaming decoder (model/ContainerReplay.v) that answers from the reads hook H4 recorded for each block (bytes produced or Err, compressed bytes consumed = difference of the Take limits; a block finds its reads by the bytes its Take holds and the chunk-plan state at its first byte); compared: schema text, user metadata, the values before the first error (borrows erased), the way the run ends (end of stream; class of the first error: negative count/size, block cannot be opened, decoder Err / decompressed data left / Take not exhausted in the end check, sync mismatch, other = value error | unreadable count/size | short marker), under both extreme read policies (every refill a fill_buf; every refill of >= capacity outstanding bytes a bypassing read). TRUSTED in this tie: hook H4 records lengths only -- the BYTES of each read are the block's data decoded by the compression library on its own (harness `decode`, cross-checked against Python's zlib / bz2 / lzma on complete streams) sliced by the produced counts; snap::raw and CRC32 enter as tables (harness `decode snappy`, zlib.crc32); the runner's own walk of the file layout (block offsets for the replay keys). NOT tied by it: the request sizes on the model's real path (policy parameter; the end check's request is tied by `decend`), message texts, the per-call pretend_eof logic after the first error, runs too long for the list-based model (skipped and counted in coverage.notes), null-codec files (Container.cr_run). One tolerance (coverage.notes ... read_ahead): a decoder Err that reaches the crate's deserializer inside a value whose bytes were all out (read_slice calls fill_buf first, also for 0 bytes) fails that value in the crate; the model delivers it and meets the same Err afterwards",
     "OCaml driver commands codecloop / snappy / decend / ccr (parsing and printing only; ccr also slices the blocks' bytes out of the file for the replay keys), harness commands crt / decode / dprobe (decblock.rs), codecloop (push_serialized + finish_block on one container writer; independent oracles: one library call with a large buffer, the library's own decoder; zlib.crc32 of Python for the snappy trailer)",
     "Rust harness (container writer/reader driver, chunk-controlled BufRead)",
 ]
